@@ -1,4 +1,4 @@
-import GSProofs.Lemmas.RespLifeOutcomeSeen
+import GSProofs.Lemmas.RespLifeOutcomeRMain
 import GSProofs.C05
 /-!
 # C05 — "exactly one outcome", the positive (partial) form
@@ -47,29 +47,25 @@ hooks, API calls, send failures:
   of a cancelled request whose task was already popped; both StartTask messages find the new response,
   two executors serve it: 1 cancelled + 2 completed for 2 registrations.
 
+* `completed_excludes_network_error`, `completed_after_retired` — for an id registered once (drained ids): never
+  reported completed AND failed on the network (either order); the completed listeners are only told after the
+  response has left the table.  Third invariant `Inv3` (Lemmas/RespLifeOutcome{P,Q,R}*.lean):
+    U   nothing about `r` exists before its registration (`Places r False False`);
+    P/I all places of `r` (table entry, topics, workers, builder entries, publisher steps, publisher calls, park) are at
+        ONE peer and all response identities attached to them are EQUAL (`Places r (· = p0) (· = i0)`);
+    K   every `emitDone r` in a publisher queue is behind a `callTerminate r` of that queue, a pending `terminate r`
+        call of that publisher, or the response is not live (`kOK`);   D1  completed logged ⇒ response not live;
+    H1  queued `callClose r` / pending `closeNetErr r` ⇒ stream of `r` closed;   J2  stream closed ⇒ no builder entry of `r`;
+    J3  no `emitDone r` behind a `callClose r` (`wf3`);
+    D2  network error confirmed or reported ⇒ no completed notification, stream closed, no `emitDone r` queued.
+  `one_outcome_partial_full` / `one_outcome_partial_requests` now state all FIVE clauses: completed ≤ 1, cancelled ≤ 1,
+  and no two of {completed, cancelled, network error} together.
+
 FULL STATEMENT (not proved):
 --   theorem one_outcome : ReachableDrained c s → ∀ incarnation of r, exactly one of
---     {completed once, cancelled once, network error}, and `nerr r` never after `done r` / `canc r`
-NOT proved: completed vs network error (no `nerr r` together with `done r` of the same registration: needs, on
-top of `Inv2`, that a closed response stream leaves no terminal status of `r` in the peer's builders and that
-`emitDone r` only follows a `callTerminate` carrying the identity of the registered response — checked on the
-real code by the oracle class `outcome-multi`), "at least one outcome" (liveness, `outcome-none`), and the per-registration reading
-when an id is re-used (the log is keyed by id: outcomes of different registrations of one id interleave).
-
-Proof plan for the open clause `¬ (1 ≤ completedCount s r ∧ 1 ≤ networkErrorCount s r)` (drained ids, `r` registered once).
-Every invariant below was TESTED (not proved) on all prefix states of 20 000 random model runs with single-use ids
-(limits 0 / 60 / 100, pool 0 / 2; about 0.6 completed and 0.6 network-error notifications per run) without a violation:
-  U   nothing about `r` exists before its registration (table, topics, workers, builder entries, publisher steps, calls);
-  P/I all places of `r` (table entry, topics, workers, builder entries, publisher steps, publisher calls in the mailbox, parked
-      newRequest) are at ONE peer, and all response identities (`inc`) attached to them (table entry, started and not yet
-      returned workers, builder entries, `callClose` / `callTerminate` steps, `closeNetErr` / `terminate` messages) are EQUAL;
-  K   while the response is in the table every `emitDone r` in a publisher queue is behind a `callTerminate r _` of that queue
-      or a pending `terminate r _` call of that publisher;   D1  completed r logged ⇒ r not in the table;
-  H1  a queued `callClose r` / pending `closeNetErr r` ⇒ the response stream of r is closed;
-  J2  stream of r closed ⇒ no builder of any peer holds an entry of r;
-  J3  no `emitDone r` behind a `callClose r` in a publisher queue, none at all while that publisher's `closeNetErr r` is pending;
-  D2  network error confirmed or reported (`NF`) ⇒ no completed notification, no terminal status of r in any builder or
-      publisher queue, stream closed.    D1 + D2 + `Inv2` give the clause (confirmation needs the response in the table).
+--     {completed once, cancelled once, network error}
+NOT proved: "at least one outcome" (liveness, oracle class `outcome-none`), and the per-registration reading when an
+id is re-used (the log is keyed by id: outcomes of different registrations of one id interleave).
 -/
 namespace GS.C05
 open GS.RespLife
@@ -272,15 +268,41 @@ theorem reachable_of_drained {c : Cfg} {s : State} (h : ReachableDrained c s) : 
   | init => exact Reachable.init
   | step _ _ hs ih => exact Reachable.step ih hs
 
-/-- **C05.one_outcome_partial_full**: everything proved about "exactly one outcome" for an id registered
-    once (drained ids): completed ≤ 1, cancelled ≤ 1, not completed and cancelled, not cancelled and network
-    error. -/
+theorem doneC_eq (s : State) (r : Id) : doneC r s = completedCount s r := by
+  unfold doneC completedCount
+  congr 1
+
+/-- **C05.completed_excludes_network_error** (drained ids, `r` registered at most once): a request is never
+    reported both to the completed listeners and to the network-error listeners — whichever comes first.
+    Invariant `Inv3` (Lemmas/RespLifeOutcome{P,Q,R}*): everything about `r` lives at one peer and carries one
+    response identity; a closed response stream leaves no entry of `r` in any builder; an `emitDone r` is always
+    behind its `callTerminate r` and never behind a `callClose r`; once a network error is confirmed no terminal
+    status of `r` is left in any publisher queue. -/
+theorem completed_excludes_network_error {c : Cfg} {s : State} (h : ReachableDrained c s) (r : Id)
+    (hreg : registrations s r ≤ 1) : ¬ (1 ≤ completedCount s r ∧ 1 ≤ networkErrorCount s r) := by
+  rw [← doneC_eq, ← nerrC_eq]
+  exact done_excludes_nerr h r (by rw [regs_eq]; exact hreg)
+
+/-- **C05.completed_after_retired**: the completed listeners are only told after the response has left the
+    table (`terminateRequest` ran) — for an id registered at most once, drained ids. -/
+theorem completed_after_retired {c : Cfg} {s : State} (h : ReachableDrained c s) (r : Id)
+    (hreg : registrations s r ≤ 1) (hd : 1 ≤ completedCount s r) : lookup s r = none := by
+  have hl := (inv3_reachable h r (by rw [regs_eq]; exact hreg)).core.d1 (by rw [doneC_eq]; exact hd)
+  unfold live at hl
+  cases hx : lookup s r with
+  | none => rfl
+  | some x => rw [hx] at hl; simp at hl
+
+/-- **C05.one_outcome_partial_full**: "exactly one outcome", the whole at-most-one half, for an id registered
+    once (drained ids): completed ≤ 1, cancelled ≤ 1, and no two of {completed, cancelled, network error}
+    together. -/
 theorem one_outcome_partial_full {c : Cfg} {s : State} (h : ReachableDrained c s) (r : Id)
     (hreg : registrations s r ≤ 1) :
     completedCount s r ≤ 1 ∧ cancelledCount s r ≤ 1 ∧ ¬ (1 ≤ completedCount s r ∧ 1 ≤ cancelledCount s r) ∧
-      ¬ (1 ≤ cancelledCount s r ∧ 1 ≤ networkErrorCount s r) :=
+      ¬ (1 ≤ cancelledCount s r ∧ 1 ≤ networkErrorCount s r) ∧
+      ¬ (1 ≤ completedCount s r ∧ 1 ≤ networkErrorCount s r) :=
   ⟨(one_outcome_partial h r hreg).1, (one_outcome_partial h r hreg).2.1, (one_outcome_partial h r hreg).2.2,
-    cancelled_excludes_network_error (reachable_of_drained h) r hreg⟩
+    cancelled_excludes_network_error (reachable_of_drained h) r hreg, completed_excludes_network_error h r hreg⟩
 
 /-- **C05.registrations_le_requests**: an id is registered at most as often as a `new` request with that id
     was received (`seenIds` = ghost log of the ids of all received `new` requests). -/
@@ -294,7 +316,8 @@ theorem registrations_le_requests {c : Cfg} {s : State} (h : ReachableFresh c s)
 theorem one_outcome_partial_requests {c : Cfg} {s : State} (h : ReachableDrained c s) (r : Id)
     (hreq : s.seenIds.count r ≤ 1) :
     completedCount s r ≤ 1 ∧ cancelledCount s r ≤ 1 ∧ ¬ (1 ≤ completedCount s r ∧ 1 ≤ cancelledCount s r) ∧
-      ¬ (1 ≤ cancelledCount s r ∧ 1 ≤ networkErrorCount s r) :=
+      ¬ (1 ≤ cancelledCount s r ∧ 1 ≤ networkErrorCount s r) ∧
+      ¬ (1 ≤ completedCount s r ∧ 1 ≤ networkErrorCount s r) :=
   one_outcome_partial_full h r (Nat.le_trans (registrations_le_requests (reachableFresh_of_drained h) r) hreq)
 
 /-- non-vacuity: a reachable state with a reported network error of an id registered once (the replay of
